@@ -55,3 +55,20 @@ func Find(p Meta, path string) Definition {
 	}
 	return nil
 }
+
+// findInChoices looks for a data definition among the members of the cases
+// of the choices in defs, nested choices included
+func findInChoices(defs []Definition, ident string) Definition {
+	for _, d := range defs {
+		if c, isChoice := d.(*Choice); isChoice {
+			for _, k := range c.Cases() {
+				if x := k.Definition(ident); x != nil {
+					if _, unexpanded := x.(*Uses); !unexpanded {
+						return x
+					}
+				}
+			}
+		}
+	}
+	return nil
+}
